@@ -1907,6 +1907,16 @@ def _string_known(ck, it: dict, fail: dict) -> str | None:
     operator of a recorded sympy-autoeval finding."""
     r = it.get("_stub")
     o = fail.get("observed", {})
+    if r and r[0] == "ok" and o.get("parse") == "raise" and o.get("exc") == "RecursionError" \
+            and "sympy-mod-recursion" in _known_keys(ck) and "BMod" in json.dumps(r[1]):
+        # SymPy alone, given the constructor calls the parser requested, raises RecursionError inside Mod
+        try:
+            _with_alarm(20, lambda: sympy_build(r[1]))
+        except RecursionError:
+            return "sympy-mod-recursion"
+        except Exception:  # noqa: BLE001
+            return None
+        return None
     if not r or r[0] != "ok" or o.get("parse") != "ok":
         return None
     import sympy  # noqa: F401
